@@ -42,6 +42,7 @@ func (w *WalletManager) VerifExpiredMempool() map[uint64][]wire.Hash {
 	defer h.memMtx.Unlock()
 	ret := make(map[uint64][]wire.Hash, len(h.expiredMempool))
 	for height, m := range h.expiredMempool {
+		ret[height] = make([]wire.Hash, 0, len(m))
 		for k := range m {
 			ret[height] = append(ret[height], k)
 		}
